@@ -11,6 +11,7 @@ import (
 	"github.com/luthersystems/elps/elpsutil"
 	"github.com/luthersystems/elps/lisp"
 	"github.com/luthersystems/elps/lisp/lisplib"
+	"github.com/luthersystems/elps/lisp/lisplib/libtime"
 	"github.com/luthersystems/elps/parser"
 )
 
@@ -18,7 +19,8 @@ import (
 // the interpreter's default" for every limit.
 type Knobs struct {
 	Stdlib    bool   `json:"stdlib"`
-	TRO       string `json:"tro,omitempty"` // "" (elimination on), "debugger" (dormant debugger: off), "profiler"
+	TimeLib   bool   `json:"timelib,omitempty"` // load only the time package
+	TRO       string `json:"tro,omitempty"`     // "" (elimination on), "debugger" (dormant debugger: off), "profiler"
 	MaxSteps  int64  `json:"max_steps,omitempty"`
 	MaxAlloc  int    `json:"max_alloc,omitempty"`
 	MaxPhys   int    `json:"max_phys,omitempty"`
@@ -212,6 +214,14 @@ func NewWorld(k Knobs) (*World, error) {
 	if k.Stdlib {
 		if rc := lisplib.LoadLibrary(env); !rc.IsNil() {
 			return nil, fmt.Errorf("LoadLibrary: %v", rc)
+		}
+	}
+	if k.TimeLib && !k.Stdlib {
+		if rc := libtime.LoadPackage(env); !rc.IsNil() {
+			return nil, fmt.Errorf("libtime: %v", rc)
+		}
+		if rc := env.InPackage(lisp.Symbol(lisp.DefaultUserPackage)); !rc.IsNil() {
+			return nil, fmt.Errorf("in-package user: %v", rc)
 		}
 	}
 	switch k.TRO {
